@@ -355,6 +355,13 @@ func TestVerifC08RoundRules(t *testing.T) {
 		"non-trivial = at least two round entrances and an event order outside the shapes of the existing tests (votes shown while awaiting a proposal, finalization before commit-wait elapse, jump-ahead, catch-up header, strategy answer after a round change, HeightCommitted signal, commit quorum before the header, entrance into the next-round or committing view)")
 }
 
+// The same unit in a build with the data race detector (thorough tier only): the state machine
+// kernel, its consensus manager and the round timer share the round lifecycle's channels and values.
+func TestVerifC08RoundRulesDetector(t *testing.T) {
+	smTest(t, "C08", "TestVerifC08RoundRulesDetector", "C08", smRuleCommon+
+		"same generator and clauses as TestVerifC08RoundRules, compiled with -race")
+}
+
 func TestVerifC02NoDoubleSign(t *testing.T) {
 	smTest(t, "C02", "TestVerifC02NoDoubleSign", "C02", smRuleCommon+
 		"ops additionally contain restarts on the same stores; non-trivial = a strategy answer or proposal arrives after a round change, or a restart happens in a round in which an action had been recorded")
